@@ -219,6 +219,12 @@ func (ex *Exec) scanMods(fr *frame, l *Loop, st *State) *loopMods {
 						case "append":
 							el := cc.Args[0].Type().Underlying().(*types.Slice).Elem()
 							m.get(ex.sliceRegionName(el)).fresh = true
+							// an append that may grow an aliased array in place changes existing arrays
+							if ci, ok := in.(*ssa.Call); ok {
+								if okOwn, _ := appendOwnerOK(ci); !okOwn {
+									m.get(ex.sliceRegionName(el)).whole = true
+								}
+							}
 						case "delete":
 							m.all = true
 						}
